@@ -18,7 +18,8 @@ def run(out, tier, seed):
     ds = DatasetId("t", "0")
     # alphabet of reports for two jobs: progress with ts, result upload, shutdown, none-progress
     def reports(job):
-        return [("P", job, "10.00", 1), ("P", job, "20.00", 2), ("P", job, "30.00", 3), ("R", job, b"x" + job.encode(), 2), ("S", job, None, 4)]
+        return [("P", job, "10.00", 1), ("P", job, "20.00", 2), ("P", job, "30.00", 3), ("R", job, b"x" + job.encode(), 2), ("S", job, None, 4),
+                ("PR", job, "25.00", 2)]  # PR: one report carrying BOTH a progress value and a result
     alphabet = reports("j1") + reports("j2")[:3]
 
     class Sock:
@@ -45,6 +46,11 @@ def run(out, tier, seed):
             elif kind == "R":
                 rep = report.ControllerReport(job, None, ts, [(ds, val)])
                 results[(job, ds)] = val
+            elif kind == "PR":
+                rep = report.ControllerReport(job, val, ts, [(ds, b"pr" + job.encode())])
+                results[(job, ds)] = b"pr" + job.encode()
+                if ts > best[job][0]:
+                    best[job] = (ts, val)
             else:
                 rep = report.ControllerReport(job, report.JobProgressShutdown, ts, [])
             s.inbox.append(report.serialize(rep))
@@ -55,12 +61,16 @@ def run(out, tier, seed):
             shown = r.progress_of([job])[job]
             # ties between equal timestamps may go either way (the property is silent): accept any value carried by a max-ts report
             maxts = best[job][0]
-            ok_vals = {v for k, j, v, ts in hist if k == "P" and j == job and ts == maxts} or {report.JobProgressStarted}
+            ok_vals = {v for k, j, v, ts in hist if k in ("P", "PR") and j == job and ts == maxts} or {report.JobProgressStarted}
             if shown not in ok_vals:
                 failures.append({"obligation": "C18/history/newest-progress-shown", "inputs": [list(map(str, h)) for h in hist], "observed": f"{job} shows {shown}, expected one of {sorted(ok_vals)}", "class": "history"})
         for (job, d), val in results.items():
-            if r.get_result(job, d) != val:
-                failures.append({"obligation": "C18/history/result-as-uploaded", "inputs": [list(map(str, h)) for h in hist], "observed": "wrong result", "class": "history"})
+            try:
+                got = r.get_result(job, d)
+            except KeyError:
+                got = "<KeyError: not stored>"
+            if got != val:
+                failures.append({"obligation": "C18/history/result-as-uploaded", "inputs": [list(map(str, h)) for h in hist], "observed": f"uploaded {val!r} for {job}/{d!r}, gateway returns {got!r}", "class": "history"})
         for job in ("j1", "j2"):
             if (job, ds) not in results:
                 s.inbox.append(orjson.dumps({"clazz": "ResultRetrievalRequest", "job_id": job, "dataset_id": {"task": "t", "output": "0"}}))
